@@ -194,8 +194,15 @@ func (c *evalCtx) resolveType(ty string) types.Type {
 
 func (c *evalCtx) findPkg(name string) *types.Package {
 	if c.pkg == nil {
-		return nil
+		return c.w.P.pkgByName(name)
 	}
+	if r := c.findPkgFrom(name); r != nil {
+		return r
+	}
+	return c.w.P.pkgByName(name)
+}
+
+func (c *evalCtx) findPkgFrom(name string) *types.Package {
 	if c.pkg.Name() == name {
 		return c.pkg
 	}
